@@ -268,6 +268,9 @@ def run(ctx, chk, tier="quick"):
     from ..sqlrules import conflict_clauses, lossy_functions
     conflict_clauses(ctx, chk, "C10.O2", ("load",), "load", "rows of the source files with the same timestamp overwrite each other: the loaded series no longer reproduce the source data")
     lossy_functions(ctx, chk, "C10.O3", ("load",), "load", "a rounded or otherwise altered value is not the source value")
+    # every grid step gets an ET value: the refusal of a grid instant without ET runs on every path (shared with C11.O4)
+    from .c11 import _missing_et
+    _missing_et(ctx, chk, ctx.func("load.load_data"), rule="C10.O2")
     from .. import sqltypes
     sqltypes.check(ctx, chk, "C10.O2", modules=("load",))
     load = ctx.func("load.load_data")
